@@ -79,6 +79,22 @@ func mkR(p string) pR {
 		Arr: [2]pK{mkK(p + ".Arr[0]"), mkK(p + ".Arr[1]")}, secret: "hidden", path: p}
 }
 
+// two different struct types with the same type name (declared in different functions) and the
+// same field names at different positions
+func mkTwinsA() interface{} {
+	type Twin struct{ Title, Owner string }
+	return []Twin{{"ta[0].Title", "ta[0].Owner"}, {"ta[1].Title", "ta[1].Owner"}}
+}
+
+func mkTwinsB() interface{} {
+	type Twin struct {
+		Pad   int
+		Owner string
+		Title string
+	}
+	return []Twin{{0, "tb[0].Owner", "tb[0].Title"}, {0, "tb[1].Owner", "tb[1].Title"}}
+}
+
 func c11Context() *plush.Context {
 	ctx := plush.NewContext()
 	r, rp := mkR("r"), mkR("rp")
@@ -88,6 +104,14 @@ func c11Context() *plush.Context {
 	ctx.Set("rm", map[string]pR{"a": mkR("rm[a]")})
 	ctx.Set("k", mkK("k"))
 	ctx.Set("ks", []pK{mkK("ks[0]"), mkK("ks[1]")})
+	ctx.Set("ta", mkTwinsA())
+	ctx.Set("tb", mkTwinsB())
+	pks := []pK{mkK("pks[0]"), mkK("pks[1]")}
+	ctx.Set("pks", &pks)
+	pm := map[string]pK{"a": mkK("pm[a]")}
+	ctx.Set("pm", &pm)
+	pm0 := map[string]pK{"a": mkK("pms[0][a]")}
+	ctx.Set("pms", []*map[string]pK{&pm0})
 	ctx.Set("i0", 0)
 	ctx.Set("i1", 1)
 	ctx.Set("i9", 9)
